@@ -58,6 +58,41 @@ theorem C08_codec_exclusions :
     simp [readToken, P.bind, P.map, readId_le, readString, getSplit, leNat,
       CLOSE, OPEN, EQUAL, U32, U64, I32, BOOL, QUOTED]
 
+/-- the token encoding is injective on well-formed tokens … -/
+theorem C08_codec_injective (a b : Token) (ha : WfTok a) (hb : WfTok b)
+    (h : a.write = b.write) : a = b := by
+  have h1 := C08_codec.1 a [] ha
+  have h2 := C08_codec.1 b [] hb
+  rw [h, h2] at h1
+  injection h1 with h1
+  exact (congrArg Prod.fst h1).symm
+
+/-- … and on sequences: two different well-formed token sequences never have the same bytes. -/
+theorem C08_codec_injective_seq (xs ys : List Token) (hx : ∀ t ∈ xs, WfTok t)
+    (hy : ∀ t ∈ ys, WfTok t)
+    (h : xs.flatMap Token.write = ys.flatMap Token.write) : xs = ys := by
+  have h1 := C08_codec.2 xs hx
+  have h2 := C08_codec.2 ys hy
+  rw [h, h2] at h1
+  exact (congrArg Prod.fst h1).symm
+
+/-- the encoding is prefix-free on well-formed tokens: no token's bytes are a proper prefix of
+another's. -/
+theorem C08_codec_prefix_free (a b : Token) (ha : WfTok a) (hb : WfTok b) (r : Bytes)
+    (h : a.write ++ r = b.write) : a = b ∧ r = [] := by
+  have h1 := C08_codec.1 a r ha
+  have h2 := C08_codec.1 b [] hb
+  rw [List.append_nil] at h2
+  rw [h, h2] at h1
+  injection h1 with h1
+  exact ⟨(congrArg Prod.fst h1).symm, (congrArg Prod.snd h1).symm⟩
+
+example : (Token.i32 5).write ≠ (Token.u32 5).write := fun h =>
+  absurd (C08_codec_injective (.i32 5) (.u32 5) (by decide) (by decide) h) (by decide)
+
+example (r : Bytes) : (Token.i32 5).write ++ r ≠ (Token.u32 5).write := fun h =>
+  absurd (C08_codec_prefix_free (.i32 5) (.u32 5) (by decide) (by decide) r h).1 (by decide)
+
 /-- `read_token` is prefix stable: a verdict `ok` (with the same token, the unread rest
 extended) or `invalidRgb` reached on a window is the verdict on every extension of the
 window.  Consequently `eof` is the only verdict more input can change. -/
